@@ -559,9 +559,13 @@ def gen_input(r, f, t, meta, path, plan):
         out = {}
         for i in range(r.choice([1, 1, 2])):
             ks = gen_input(r, f, t[1], meta, '%s/key%d' % (path, i), no_junk(plan))
-            if ks in out:
+            lf = leafctx(f, t[1])
+            rd = [json.dumps(canon_py(x, 'k')) for x in (pattern_reading(lf, ks), iso_reading(lf, ks)) if x is not None]
+            seen_keys = meta.setdefault('__keys__' + path, [])
+            if ks in out or any(x in seen_keys for x in rd):   # two key strings denoting the same value collapse into one entry
                 meta.pop('%s/key%d' % (path, i), None)
                 continue
+            seen_keys.extend(rd)
             out[ks] = gen_input(r, f, t[2], meta, '%s/val%d' % (path, i), plan)
             meta['%s/key%d' % (path, i)]['key'] = True
         return out
@@ -582,6 +586,12 @@ def gen_input(r, f, t, meta, path, plan):
     if k == 'dc':
         return {'g': gen_input(r, f, t[2], meta, path + '/g', plan)}
     raise ValueError(t)
+
+
+def clean_meta(meta):
+    for k in [k for k in meta if k.startswith('__keys__')]:
+        del meta[k]
+    return meta
 
 
 def gen_inputs(r, f):
@@ -611,6 +621,8 @@ def gen_inputs(r, f):
                 return 'junk' if state['n'] - 1 == state['pick'] else ('fmt' if r.random() < 0.7 else 'iso')
             inp = gen_input(r, f, t, meta, '', plan)
             items.append({'inp': inp, 'meta': meta})
+    for it in items:
+        clean_meta(it['meta'])
     f['items'] = items
 
 
